@@ -71,4 +71,6 @@ static std::string codec_probe()
     return o.str();
 }
 
+VH_STARTUP_PROBE(codec_probe)
+
 int main(int argc, char **argv) { vh::g_probe = codec_probe; return run_main(argc, argv, dispatch); }
